@@ -331,10 +331,10 @@ impl FixedCapacityMemoryPool {
             }
         }
 
-        // Return to free list
-        self.deallocate_to_free_list(ptr, size_class_index)?;
-
-        // Update statistics
+        // Update statistics BEFORE the block becomes visible on the free list: once it is pushed
+        // another thread can pop it and count it as active, and a decrement that came later made
+        // active_blocks / peak_blocks count the block twice (a peak above total_blocks).
+        // The pointer was verified above, the push below cannot fail any more.
         if let Some(stats) = &self.stats {
             stats.deallocations.fetch_add(1, Ordering::Relaxed);
             let active = stats.active_blocks.fetch_sub(1, Ordering::Relaxed) - 1;
@@ -343,6 +343,9 @@ impl FixedCapacityMemoryPool {
             let utilization = (active * 10000 / self.config.total_blocks) as u32;
             stats.utilization.store(utilization, Ordering::Relaxed);
         }
+
+        // Return to free list
+        self.deallocate_to_free_list(ptr, size_class_index)?;
 
         Ok(())
     }
